@@ -209,6 +209,8 @@ def r5_every_tick_probes(ctx):
 
 
 def run(ctx):
+    from . import effects
+    effects.check_property(ctx, "C14")    # R14.E: no operation on shared protocol state outside the reviewed table
     r5_every_tick_probes(ctx)
     C09.r4_close_body(ctx)    # giving up releases all waiters: close() drains streams before it waits for the transport
     from . import C08
